@@ -126,6 +126,10 @@ func (r *Reporter) Report(key, msg string, replay any) {
 	r.Replays = append(r.Replays, path)
 	fmt.Printf("VIOLATION property=%s replay=%s\n", r.Prop, path)
 	fmt.Printf("  key=%s %s\n", key, msg)
+	if os.Getenv("VERIF_FAILFAST") == "1" {
+		// mutation screening aid (tools/mutscreen): stop at the first violation, no evidence file.
+		os.Exit(1)
+	}
 }
 
 // NewViolations returns the number of violations not listed as known findings.
